@@ -20,6 +20,10 @@ package drummer
 //   Q <a> <shard>             GetSession through facade a (own goroutine, under recover), then CloseSession; for a
 //                             joining shard with a short deadline, followed by the local SyncGetSession with the same
 //                             deadline ("jerr <code> <is status> <text> <name of the local error>")
+//   B <a> <rounds> <id>...    CONCURRENT GetSession calls through ONE facade object: per round one goroutine per listed shard
+//                             id (ids may repeat), all released at the same instant, each under its own recover; tracked
+//                             sessions are closed again. Output: "ok <shard>:<outcome>:<count> ..." (outcome tracked / noop /
+//                             err / errstatus<code> / panic / infra / wrongshard) summed over all rounds
 //   G <a> <shard> <name>      obtain a session through facade a and the local session of the same kind, keep both as <name>
 //   H <name> <shard> <tracked|noop>  a hand-made session pair for <shard> (never registered anywhere)
 //   Y <a> <name> <f|l> <propose|close>  Propose / CloseSession with the kept session through the facade (f) or
@@ -970,6 +974,106 @@ func (h *vfHost) getSessionJoining(api *NodehostAPI, shard uint64) (string, *pb.
 	return fmt.Sprintf("jerr %s %s %s %s", vfCode(err), vfIsStatus(err), vfMsg(err), local), nil
 }
 
+// burst: concurrent GetSession calls through one facade object
+func (h *vfHost) burst(api *NodehostAPI, rounds int, ids []uint64) string {
+	type key struct {
+		shard uint64
+		out   string
+	}
+	var mu sync.Mutex
+	counts := map[key]int{}
+	one := func(shard uint64) string {
+		out := "infra"
+		for tries := 0; tries < 4; tries++ {
+			var s *pb.Session
+			var err error
+			pan := ""
+			func() {
+				defer func() {
+					if r := recover(); r != nil {
+						pan = vfTok(fmt.Sprint(r))
+					}
+				}()
+				ctx, cancel := h.ctx()
+				defer cancel()
+				s, err = api.GetSession(ctx, &pb.SessionRequest{ShardId: shard})
+			}()
+			if pan != "" {
+				return "panic"
+			}
+			if err != nil {
+				if vfInfra(err) {
+					time.Sleep(5 * time.Millisecond)
+					continue
+				}
+				if _, ok := status.FromError(err); ok {
+					return "errstatus" + vfCode(err)
+				}
+				return "err"
+			}
+			if s == nil {
+				return "nilsession"
+			}
+			nhs := ToNodeHostSession(s)
+			if nhs.ShardID != shard {
+				return "wrongshard"
+			}
+			if nhs.IsNoOPSession() {
+				return "noop"
+			}
+			func() {
+				defer func() { _ = recover() }()
+				ctx, cancel := h.ctx()
+				defer cancel()
+				_, _ = api.CloseSession(ctx, s)
+			}()
+			return "tracked"
+		}
+		return out
+	}
+	for r := 0; r < rounds; r++ {
+		start := make(chan struct{})
+		var ready, wg sync.WaitGroup
+		for _, id := range ids {
+			ready.Add(1)
+			wg.Add(1)
+			go func(shard uint64) {
+				defer wg.Done()
+				ready.Done()
+				<-start
+				o := one(shard)
+				mu.Lock()
+				counts[key{shard, o}]++
+				mu.Unlock()
+			}(id)
+		}
+		ready.Wait()
+		close(start)
+		done := make(chan struct{})
+		go func() { wg.Wait(); close(done) }()
+		select {
+		case <-done:
+		case <-time.After(120 * time.Second):
+			return "infra burst-hang"
+		}
+	}
+	keys := make([]key, 0, len(counts))
+	for k := range counts {
+		keys = append(keys, k)
+	}
+	sort.Slice(keys, func(i, j int) bool {
+		if keys[i].shard != keys[j].shard {
+			return keys[i].shard < keys[j].shard
+		}
+		return keys[i].out < keys[j].out
+	})
+	parts := []string{"ok"}
+	for _, k := range keys {
+		parts = append(parts, fmt.Sprintf("%d:%s:%d", k.shard, k.out, counts[k]))
+	}
+	return strings.Join(parts, " ")
+}
+
 // keep: a session through the facade and the local session of the same kind, both kept for later
 func (h *vfHost) keepSession(api *NodehostAPI, shard uint64, name string) string {
 	if h.kept == nil {
@@ -1429,7 +1533,7 @@ func vfRunBlock(b *vfBlock) {
 		var res string
 		pan := vfGuard(func() {
 			switch t[0] {
-			case "A", "Q", "P", "R", "X", "E", "G", "Y":
+			case "A", "Q", "P", "R", "X", "E", "G", "Y", "B":
 				if api(t[1]) == nil {
 					res = "infra facade"
 					return
@@ -1462,6 +1566,13 @@ func vfRunBlock(b *vfBlock) {
 				res = h.startMode(u(t[1]), typ, map[string]string{"SN": "nowait", "SJ": "join"}[t[0]])
 			case "W":
 				res = h.waitReady(u(t[1]), h.replica[u(t[1])])
+			case "B":
+				rounds, _ := strconv.Atoi(t[2])
+				ids := []uint64{}
+				for _, x := range t[3:] {
+					ids = append(ids, u(x))
+				}
+				res = h.burst(api(t[1]), rounds, ids)
 			case "G":
 				res = h.keepSession(api(t[1]), u(t[2]), t[3])
 			case "H":
